@@ -1,5 +1,5 @@
 """C09 — heap component; see harness/heap.py"""
-from .. import heap, refgraph, common
+from .. import heap, refgraph, layout, common
 
 PROP = "C09"
 PREFIX = ('C09:',)
@@ -22,12 +22,19 @@ def _rg(tier, seed):
     return _cache[("rg", tier, seed)]
 
 
+def _lay(tier, seed):
+    if ("lay", tier, seed) not in _cache:
+        _cache[("lay", tier, seed)] = layout.run_all(tier, seed, refs=False)
+    return _cache[("lay", tier, seed)]
+
+
 def run(tier, seed):
     r = _run(tier, seed)
     g = _rg(tier, seed)
+    la = _lay(tier, seed)      # copies made before a whole update through the element's own handle (run_resplit)
     return {
-        "failures": _mine(r["failures"]) + _mine(g["failures"]),
-        "mismatches": r["mismatches"] + g["mismatches"],
+        "failures": _mine(r["failures"]) + _mine(g["failures"]) + _mine(la["failures"]),
+        "mismatches": r["mismatches"] + g["mismatches"] + la["mismatches"],
         "evaluations": r["lines"] + g["lines"],
         "distinct_nontrivial": r["distinct"] + g["distinct"],
         "traces": r["lines"] + g["lines"],
@@ -52,6 +59,7 @@ def search(mismatches, seed):
     for s in range(2):
         out.extend(_mine(heap.run_all("quick", seed + 8000 + s, n=500)["failures"]))
         out.extend(_mine(refgraph.run_all("quick", seed + 8000 + s, n=600)["failures"]))
+        out.extend(_mine(layout.run_all("quick", seed + 8000 + s, refs=False)["failures"]))
         if out:
             break
     return out
